@@ -96,6 +96,7 @@ enum
     CL_CROSS,
     CL_URI_OVERSIZED_BUFFER,
     CL_LONG_PATH,
+    CL_MANY_FDS,
 };
 
 const VhSpec kSpec = {
@@ -109,7 +110,7 @@ const VhSpec kSpec = {
       "fault_fired", "fault_open", "fault_flock", "fault_pwrite", "fault_persistent", "device_used_after_fault", "failed_append_reported",
       "close_while_running", "close_without_start", "start_stop_without_frames", "f32_frames", "odd_image_size", "raw_file_compared",
       "tiff_file_read_back", "restart_without_set", "file_offsets_beyond_4GiB", "second_device_on_running_file_refused",
-      "second_device_on_running_file_admitted", "two_devices_open", "two_devices_running", "cross_device_descriptor_reuse_scenario", "uri_in_oversized_buffer", "path_longer_than_1KiB", nullptr },
+      "second_device_on_running_file_admitted", "two_devices_open", "two_devices_running", "cross_device_descriptor_reuse_scenario", "uri_in_oversized_buffer", "path_longer_than_1KiB", "descriptor_numbers_above_255", nullptr },
     { "C14 non-trivial: a raw file was compared byte for byte AND (>=2 acquisitions on that device, or a short write inside a multi-frame packet)",
       "C15 non-trivial: a TIFF file was read back AND (N>=2 frames in >=2 packets, or >=2 start/stop cycles on one device, or tiff-json)",
       "C16 non-trivial: an injected fault fired and the device was used again afterwards, or close while running / without start with the "
@@ -834,7 +835,10 @@ do_stop(Ctx& x)
         return;
     x.acq.started = false;
     // a completed acquisition: judge the file
-    bool judge = x.acq.all_ok && !x.acq.error_fault && !x.acq.interfered;
+    // tiff writes at stop as well, so an injected fault can legitimately leave the file incomplete although every
+    // append returned Ok; the raw device writes in append only: if start and every append returned Ok the file
+    // must hold every byte, whatever the OS calls did in between
+    bool judge = x.acq.all_ok && (!x.acq.error_fault || x.kind == 0) && !x.acq.interfered;
     if (judge && x.kind == 0)
         check_raw(x);
     else if (judge && (x.kind == 1 || x.kind == 2) && !x.acq.frames.empty())
@@ -1261,6 +1265,17 @@ vh_run(const VhTok* tape, size_t n, VhReport* rep)
     if (chdir(x.dir.c_str()) != 0) {
     }
     x.driver = acquire_driver_init_v0(quiet_reporter);
+    // in some cases the process already has ~260 descriptors open, so that the devices' files get numbers >= 256
+    std::vector<int> dummies;
+    if (n && vh_mix64(tape[0].a * 31u + tape[0].kind * 7u + 3) % 6 == 0) {
+        for (int k = 0; k < 262; ++k) {
+            int fd = ::open("/dev/null", O_RDONLY);
+            if (fd < 0)
+                break;
+            dummies.push_back(fd);
+        }
+        x.c.cls(CL_MANY_FDS);
+    }
 
     for (size_t ti = 0; ti < n && !x.c.ended; ++ti) {
         const VhTok& t = tape[ti];
@@ -1396,6 +1411,8 @@ vh_run(const VhTok* tape, size_t n, VhReport* rep)
     if (x.driver && x.driver->shutdown)
         x.driver->shutdown(x.driver);
     vfd::close_leftovers();
+    for (int fd : dummies)
+        ::close(fd);
     if (oldcwd[0] && chdir(oldcwd) != 0) {
     }
     rm_rf(x.dir);
